@@ -5,12 +5,15 @@ package main
 // end with goodbye; internal/frame Reader/Writer under random segmentations.
 
 import (
+	"bufio"
 	"bytes"
 	"encoding/binary"
+	"encoding/json"
 	"fmt"
 	"io"
 	"os"
 	"os/exec"
+	"path/filepath"
 	"sort"
 	"strconv"
 	"strings"
@@ -353,6 +356,122 @@ func runPluginMainInProcess(s pmSession, chunks [][]byte) (string, int) {
 	return strings.Join(append([]string{"ok", "goodbye", strconv.Itoa(len(as))}, as...), " "), cr.pos
 }
 
+// pmBatchCase is one in-memory session handed to the batch child.
+type pmBatchCase struct {
+	Name    string       `json:"name"`
+	HasSG   bool         `json:"sg"`
+	Answers []genAnswerJ `json:"answers"`
+	Chunks  []string     `json:"chunks"`
+}
+
+type genAnswerJ struct {
+	Err   bool  `json:"err"`
+	Nil   bool  `json:"nil"`
+	Files []kv2 `json:"files"`
+}
+
+// pluginMainBatchChild runs sessions through the real plugin.Main over in-memory readers with
+// exact chunking, one result line per session. plugin.Main ends the process with log.Fatalf
+// when a session fails; the parent then sees which session had no result line.
+func pluginMainBatchChild() {
+	f, err := os.Open(os.Getenv("VERIF_PM_BATCH"))
+	if err != nil {
+		os.Exit(3)
+	}
+	start, _ := strconv.Atoi(os.Getenv("VERIF_PM_START"))
+	sc := bufio.NewScanner(f)
+	sc.Buffer(make([]byte, 1<<20), 1<<28)
+	w := bufio.NewWriter(os.Stdout)
+	idx := -1
+	for sc.Scan() {
+		idx++
+		if idx < start {
+			continue
+		}
+		var c pmBatchCase
+		if json.Unmarshal(sc.Bytes(), &c) != nil {
+			continue
+		}
+		s := pmSession{name: c.Name, hasSG: c.HasSG}
+		for _, a := range c.Answers {
+			g := genAnswer{err: a.Err, nilFiles: a.Nil}
+			for _, f := range a.Files {
+				g.files = append(g.files, kv{string(unhx(f.K)), string(unhx(f.V))})
+			}
+			s.answers = append(s.answers, g)
+		}
+		var chunks [][]byte
+		for _, ch := range c.Chunks {
+			chunks = append(chunks, unhx(ch))
+		}
+		impl, consumed := runPluginMainInProcess(s, chunks)
+		fmt.Fprintf(w, "%d\t%d\t%s\n", idx, consumed, impl)
+		w.Flush()
+	}
+	os.Exit(0)
+}
+
+// runPluginMainBatch returns, per session, the answer and the bytes consumed; a session that
+// killed the child gets the answer "process-terminated".
+func runPluginMainBatch(cases []pmBatchCase) ([]string, []int) {
+	path := filepath.Join(work(), fmt.Sprintf("pmbatch-%d.jsonl", caseCounter.next()))
+	fh, _ := os.Create(path)
+	bw := bufio.NewWriter(fh)
+	for _, c := range cases {
+		b, _ := json.Marshal(c)
+		bw.Write(b)
+		bw.WriteByte('\n')
+	}
+	bw.Flush()
+	fh.Close()
+	res := make([]string, len(cases))
+	cons := make([]int, len(cases))
+	self, _ := os.Executable()
+	start := 0
+	for start < len(cases) {
+		cmd := exec.Command(self)
+		cmd.Env = append(os.Environ(), "VERIF_PROTOCHECK_MODE=pluginmain-batch", "VERIF_PM_BATCH="+path, "VERIF_PM_START="+strconv.Itoa(start))
+		var outb bytes.Buffer
+		cmd.Stdout = &outb
+		done := make(chan error, 1)
+		if err := cmd.Start(); err != nil {
+			break
+		}
+		go func() { done <- cmd.Wait() }()
+		select {
+		case <-done:
+		case <-time.After(5 * time.Minute):
+			cmd.Process.Kill()
+			<-done
+		}
+		last := start - 1
+		for _, line := range strings.Split(outb.String(), "\n") {
+			f := strings.SplitN(line, "\t", 3)
+			if len(f) != 3 {
+				continue
+			}
+			i, err := strconv.Atoi(f[0])
+			if err != nil || i < 0 || i >= len(cases) {
+				continue
+			}
+			cons[i], _ = strconv.Atoi(f[1])
+			res[i] = f[2]
+			last = i
+		}
+		if last+1 < len(cases) && res[last+1] == "" {
+			res[last+1] = "process-terminated"
+			start = last + 2
+		} else {
+			start = last + 1
+		}
+		if last == len(cases)-1 {
+			break
+		}
+	}
+	os.Remove(path)
+	return res, cons
+}
+
 // pluginMainChild is the child mode: the real plugin.Main on stdin/stdout.
 func pluginMainChild() {
 	p := &plugin.Plugin{Name: os.Getenv("VERIF_PM_NAME")}
@@ -464,16 +583,42 @@ func c16PluginMain(c *checker, r *rng.R) {
 	// plugin.Main ends the process (log.Fatalf) when the session does not end with goodbye,
 	// so only sessions the model expects to end that way run in-process; the rest go to a child
 	model := ask(ops)
+	var batch []pmBatchCase
+	var batchIdx []int
+	for i, cs := range cases {
+		if !strings.HasPrefix(model[i], "ok goodbye ") {
+			continue
+		}
+		bc := pmBatchCase{Name: cs.s.name, HasSG: cs.s.hasSG}
+		for _, a := range cs.s.answers {
+			aj := genAnswerJ{Err: a.err, Nil: a.nilFiles}
+			for _, f := range a.files {
+				aj.Files = append(aj.Files, kv2{hxs(f.k), hxs(f.v)}) // hex: contents are arbitrary bytes
+			}
+			bc.Answers = append(bc.Answers, aj)
+		}
+		for _, ch := range cs.chunks {
+			bc.Chunks = append(bc.Chunks, hx(ch))
+		}
+		batch = append(batch, bc)
+		batchIdx = append(batchIdx, i)
+	}
+	bres, bcons := runPluginMainBatch(batch)
+	inproc := map[int]int{}
+	for k, i := range batchIdx {
+		inproc[i] = k
+	}
 	for i, cs := range cases {
 		s, chunks, op := cs.s, cs.chunks, cs.op
 		data := flat(chunks)
-		if !strings.HasPrefix(model[i], "ok goodbye ") {
+		k, ok := inproc[i]
+		if !ok {
 			impl := runPluginMainChild(s, chunks)
 			c.rep.Case(op, true)
 			c.expect("C16 plugin.Main (child) vs server model", op, impl)
 			continue
 		}
-		impl, consumed := runPluginMainInProcess(s, chunks)
+		impl, consumed := bres[k], bcons[k]
 		c.rep.Hist("how", "plugin.Main in-memory")
 		c.rep.Hist("plugin.Main requests", strconv.Itoa(len(s.reqs)))
 		c.rep.Case(op, true)
@@ -481,6 +626,10 @@ func c16PluginMain(c *checker, r *rng.R) {
 			c.rep.Sample("plugin.Main: " + op + " => " + impl)
 		}
 		c.expect("C16 plugin.Main vs server model", op, impl)
+		if impl == "process-terminated" {
+			c.oracle("C16 plugin.Main gave up on a session that ends with goodbye", op, impl, "the library terminated the process (log.Fatalf) instead of answering")
+			continue
+		}
 		// oracle: answers handshake/generate/goodbye, one answer per request, stops after goodbye
 		want := len(data) - len(s.tail)
 		if consumed > want {
